@@ -146,6 +146,31 @@ pub fn record(args: &Args) -> i32 {
     for (label, s) in crate::gen::sweep_streams(&mut rng, args.num("sweeps", 4) as usize, args.num("window", 12) as usize) {
         streams.push((label, s));
     }
+    // many small blocks under lazy matching (memory level 1: a block every 127 symbols), so that
+    // blocks end in every situation the predictor can be in - in particular right after a literal
+    // it predicted because the next position matches longer
+    {
+        let want = args.num("smallblocks", 3) as usize;
+        let (mut have, mut tries) = (0usize, 0usize);
+        while have < want && tries < want * 8 {
+            tries += 1;
+            let level = *rng.pick(&[4, 5, 6, 6, 7, 8, 9]);
+            let mut text: Vec<u8> = Vec::new();
+            while text.len() < maxlen.min(14000) {
+                let (_, p) = crate::gen::plaintext(&mut rng, 6000);
+                text.extend_from_slice(&p);
+            }
+            text.truncate(maxlen.min(14000));
+            let s = crate::gen::zlib_raw(&text, level, 0, 15, 1);
+            // only streams on which the estimator sees lazy matching (the others never defer a match)
+            match guarded(|| verif::estimate(&s)) {
+                Ok(Ok(p)) if p[12] > 0 && p[2] == 1 => {}
+                _ => continue,
+            }
+            have += 1;
+            streams.push((format!("smallblocks/zlib:l{}:m1", level), s));
+        }
+    }
     if args.get("samples").is_some() {
         for d in crate::deflate::sample_streams() {
             if d.bytes.len() <= args.num("samplemax", 40000) as usize {
